@@ -731,3 +731,4 @@ def c13_effects(rng, tier):
 
 class Discard(Exception):
     """raised by an oracle when the generated case is outside the property's quantifier"""
+from . import oracles_aero  # noqa: F401,E402
